@@ -566,6 +566,11 @@ pub fn run(cfg: &Cfg, rep: &mut Report, mode: Mode) {
                     if cases >= max_cases || cases >= program_cap {
                         break 'prog;
                     }
+                    // the step-bound monitor has no reference cost for a start inside a pair
+                    // (termination from such starts is the robustness stages' business)
+                    if mode == Mode::Steps && !ucs2 && start > 0 && start < text.len() && is_hi(text[start - 1]) && is_lo(text[start]) {
+                        continue;
+                    }
                     cases += 1;
                     match run_case(mode, &prep, text, start, ucs2, rep) {
                         V::Held(nt) => {
